@@ -9,7 +9,7 @@ import traceback
 from . import facts, mir
 
 VERIF = facts.VERIF
-EVIDENCE_DIR = os.path.join(VERIF, "evidence")
+EVIDENCE_DIR = os.environ.get("RBV_EVIDENCE_DIR") or os.path.join(VERIF, "evidence")
 VIOL_DIR = os.path.join(EVIDENCE_DIR, "violations")
 KNOWN = os.path.join(VERIF, "known_findings.json")
 
